@@ -271,7 +271,9 @@ impl Model {
                 Decode::Pos { ambiguous: true, .. } => Dec::Ambiguous,
                 Decode::Pos { lat, lon, .. } => {
                     let dist = cpr::haversine_km(receiver, (*lat, *lon));
-                    if close(dist, max_range, BAND) {
+                    // a distance of exactly 0 (receiver on the position) is within every range and
+                    // carries no rounding: no ambiguity band around a range of 0
+                    if dist != 0.0 && close(dist, max_range, BAND) {
                         return Dec::Ambiguous;
                     }
                     if dist > max_range {
@@ -535,7 +537,10 @@ impl Model {
                 // given with the report that led to this publication
                 let rx = r.pub_receiver.unwrap_or(self.receiver);
                 let want = cpr::haversine_km(rx, p);
-                if !(close(d, want, 1e-9) || (d - want).abs() < 1e-6) {
+                // near the antipode the haversine is ill-conditioned (an ulp in the half-chord term
+                // is a decimetre of arc): 1 m there, 1e-9 relative elsewhere
+                let abs_tol = if want > 19_900.0 { 1e-3 } else { 1e-6 };
+                if !(close(d, want, 1e-9) || (d - want).abs() < abs_tol) {
                     out.push(Disagreement {
                         prop: "C13",
                         clause: "distance_great_circle",
